@@ -14,7 +14,7 @@ Require Import Cirbo.Model.Base Cirbo.Model.Gate Cirbo.Model.Den Cirbo.Model.Cir
         Cirbo.Model.Eval Cirbo.Model.Sem Cirbo.Model.History Cirbo.Model.WF.
 Require Import Cirbo.Generated.Operators Cirbo.Generated.GateTypes.
 Require Import Cirbo.Proofs.WFEmplace Cirbo.Proofs.WFStep Cirbo.Proofs.SemExt Cirbo.Proofs.SemBench
-        Cirbo.Proofs.SemBench2 Cirbo.Proofs.C14Final.
+        Cirbo.Proofs.SemBench2 Cirbo.Proofs.C14Final Cirbo.Proofs.WFBench Cirbo.Proofs.SemCex.
 
 (* ---- the rewrite rules, locally ---- *)
 Theorem C14_rules_denotation : forall a b x bs,
@@ -106,6 +106,16 @@ Theorem C14_partial_assignments_differ :
   exists c', into_bench cex_partial ["X"] = Ok c' /\
              Eval cex_partial [("b", T)] "g" U /\ Eval c' [("b", T)] "g" F.
 Proof. exact into_bench_partial_assignment_differs. Qed.
+
+(* arity_ok cannot be dropped either: a comparison gate with three operands has no value
+   (TypeError), the converter reads two of them and the converted gate has a value (the same
+   state breaks the users index, C02: Proofs/WFBench.v cex_ternary_breaks) *)
+Theorem C14_arity_needed :
+  wfb cex_ternary = true /\ inputs_nullary cex_ternary /\
+  exists c', into_bench cex_ternary ["X"] = Ok c' /\
+    (forall v, ~ Eval cex_ternary [("a", T); ("b", T); ("d", T)] "l" v) /\
+    Eval c' [("a", T); ("b", T); ("d", T)] "l" F.
+Proof. exact into_bench_bad_arity_gains_value. Qed.
 
 (* ---- non-vacuity: a circuit over comparison, projection and constant gates, one of them with
    a duplicated operand, with outputs and a block, that satisfies all hypotheses ---- *)
